@@ -67,7 +67,15 @@ fn check(c: &Case, ctx: &Ctx) -> Outcome {
             must_ok(&o, "ska build of a part")?;
             tables.push(model_table(&ss, k, rc).1);
         }
-        let names: Vec<String> = (0..files.len()).map(|i| format!("g{i}.skf")).collect();
+        let mut names: Vec<String> = (0..files.len()).map(|i| format!("g{i}.skf")).collect();
+        // every third case: the last two inputs are two batches' files of the same name in different directories
+        if files.len() >= 2 && (k / 2 + samples.len() + files.len()) % 3 == 1 {
+            for (d, i) in [("batch1", files.len() - 2), ("batch2", files.len() - 1)] {
+                std::fs::create_dir_all(dir.join(d)).map_err(|e| Outcome::Infra(e.to_string()))?;
+                std::fs::rename(dir.join(&names[i]), dir.join(d).join("run.skf")).map_err(|e| Outcome::Infra(e.to_string()))?;
+                names[i] = format!("{d}/run.skf");
+            }
+        }
         let mut expected = tables[0].clone();
         for t in &tables[1..] {
             expected = expected.merge(t);
@@ -104,7 +112,9 @@ fn check(c: &Case, ctx: &Ctx) -> Outcome {
             }
             // the output prefix may or may not carry the .skf suffix already
             // the output prefix may carry the .skf suffix already, or contain a dot of its own
-            let prefix = ["m", "m.skf", "m.v1"][(samples.len() + k / 2) % 3];
+            // or name a file in another directory whose name has a dot
+            let prefix = ["m", "m.skf", "m.v1", "out.d/m"][(samples.len() + k / 2) % 4];
+            std::fs::create_dir_all(dir.join("out.d")).map_err(|e| Outcome::Infra(e.to_string()))?;
             args.extend_from_slice(&["-o", prefix]);
             let o = run_ska(ctx, &dir, &args);
             must_ok(&o, "ska merge")?;
@@ -202,6 +212,105 @@ fn check_refuse(c: &RefuseCase, ctx: &Ctx) -> Outcome {
     }
 }
 
+// ---- files written by earlier releases (the repository's own fixtures, copied to /verif/fixtures/old_skf) ----
+
+const OLD_FILES: [(&str, usize); 5] = [("merge.skf", 17), ("merge_k41.skf", 41), ("merge_k9.skf", 9), ("test_skalo.skf", 7), ("test_skalo_indel.skf", 7)];
+
+#[derive(Clone, Debug, Serialize, Deserialize)]
+pub struct OldCase {
+    pub file: u8,
+    /// records of the 1-3 new samples (materialised at the old file's k)
+    pub samples: Vec<Vec<gen::Rec>>,
+    /// rows of the old file that the first new sample also holds, with another middle base
+    pub shared: Vec<(u16, u8)>,
+    pub old_first: bool,
+    /// delete some samples from the old file first (the rewritten file keeps its version stamp)
+    pub delete: Option<u16>,
+}
+
+fn old_strategy() -> BoxedStrategy<OldCase> {
+    (0u8..5)
+        .prop_flat_map(|file| {
+            let k = OLD_FILES[file as usize].1;
+            (Just(file), proptest::collection::vec(proptest::collection::vec(gen::rec_strategy(k), 1..4), 1..4), proptest::collection::vec((any::<u16>(), 0u8..4), 0..6), any::<bool>(), prop_oneof![2 => Just(None), 1 => any::<u16>().prop_map(Some)])
+        })
+        .prop_map(|(file, samples, shared, old_first, delete)| OldCase { file, samples, shared, old_first, delete })
+        .boxed()
+}
+
+fn check_old(c: &OldCase, ctx: &Ctx) -> Outcome {
+    let (fname, k) = OLD_FILES[c.file as usize % 5];
+    let root = std::path::PathBuf::from(std::env::var("VERIF_ROOT").unwrap_or_else(|_| "/verif".to_string()));
+    let src = root.join("fixtures/old_skf").join(fname);
+    let dir = ctx.case_dir();
+    let r: Result<(bool, String), Outcome> = (|| {
+        std::fs::copy(&src, dir.join("old.skf")).map_err(|e| Outcome::Infra(format!("{}: {e}", src.display())))?;
+        let mut old = nk(ctx, &dir, "old.skf")?;
+        let version = old.header.get("ska_version").cloned().unwrap_or_default();
+        if old.header.get("k").map(|x| x.as_str()) != Some(&k.to_string()) || old.header.get("rc").map(|x| x.as_str()) != Some("true") {
+            return Err(Outcome::Infra(format!("fixture {fname}: unexpected header {:?}", old.header)));
+        }
+        if let Some(d) = c.delete {
+            let n = old.names.len();
+            let keep = gen::idx(d, n);
+            let gone: Vec<String> = old.names.iter().enumerate().filter(|(j, _)| n > 2 && j % 2 == 1 && *j != keep).map(|(_, x)| x.clone()).collect();
+            if !gone.is_empty() {
+                let mut args: Vec<&str> = vec!["delete", "-s", "old.skf"];
+                args.extend(gone.iter().map(|x| x.as_str()));
+                must_ok(&run_ska(ctx, &dir, &args), "ska delete on the old file")?;
+                let expect = old.table().delete(&gone);
+                old = nk(ctx, &dir, "old.skf")?;
+                if old.table() != expect {
+                    return Err(Outcome::Fail(format!("delete {gone:?} on {fname}: {}", table_diff(&old.table(), &expect))));
+                }
+            }
+        }
+        let t_old = old.table();
+        let h = (k - 1) / 2;
+        let mut new: Vec<Sample> = Vec::new();
+        for (i, recs) in c.samples.iter().enumerate() {
+            let mut rs = gen::materialise_recs(recs, k);
+            if i == 0 {
+                let keys: Vec<&Vec<u8>> = t_old.rows.keys().collect();
+                for (sel, b) in &c.shared {
+                    if keys.is_empty() {
+                        break;
+                    }
+                    let a = keys[gen::idx(*sel, keys.len())];
+                    let mut r = a[..h].to_vec();
+                    r.push(model::BASES[*b as usize & 3]);
+                    r.extend_from_slice(&a[h..]);
+                    rs.push(r);
+                }
+            }
+            if rs.iter().all(|x| model::windows(x, k).is_empty()) {
+                rs.push(gen::filler(k, i));
+            }
+            new.push((format!("new{i}"), rs));
+        }
+        must_ok(&build(ctx, &dir, "new", &new, k, true, 1), "ska build of the new samples")?;
+        let t_new = model_table(&new, k, true).1;
+        let (args, expected) = if c.old_first { (vec!["merge", "old.skf", "new.skf", "-o", "m"], t_old.merge(&t_new)) } else { (vec!["merge", "new.skf", "old.skf", "-o", "m"], t_new.merge(&t_old)) };
+        must_ok(&run_ska(ctx, &dir, &args), &format!("ska {} (old.skf = {fname}, written by ska {version})", args.join(" ")))?;
+        let got = nk(ctx, &dir, "m.skf")?;
+        model::compare_nk(&got, &expected, k, true, Some(k_bits_for(k))).map_err(|m| Outcome::Fail(format!("merge with {fname} (written by ska {version}): {m}")))?;
+        let shared_rows = t_new.rows.keys().any(|a| t_old.rows.contains_key(a));
+        Ok((shared_rows, version))
+    })();
+    ctx.done(&dir);
+    match r {
+        Err(Outcome::Fail(m)) => Outcome::Fail(format!("file={fname} k={k} old_first={} delete={:?}: {m}", c.old_first, c.delete)),
+        Err(o) => o,
+        Ok((shared_rows, version)) => {
+            let mut cl: Vec<&'static str> = vec![match c.file % 5 { 0 => "merge.skf(k17)", 1 => "merge_k41.skf", 2 => "merge_k9.skf", 3 => "test_skalo.skf(k7)", _ => "test_skalo_indel.skf(k7)" }];
+            cl.push(if version.starts_with("0.2") { "written_by_0.2.x" } else if version.starts_with("0.3") { "written_by_0.3.x" } else { "written_by_other" });
+            if shared_rows { cl.push("rows_in_both_files"); }
+            if c.delete.is_some() { cl.push("old_file_rewritten_by_delete_first"); }
+            pass(shared_rows, key_of(&(c.file, &c.samples, &c.shared, c.old_first, c.delete)), cl)
+        }
+    }
+}
+
 const RULE: &str = "generated: 2-8 samples derived from common ancestors (SNPs, indels, N, substrings, reverse complements, private records), partitioned into 2-4 files, merged in a generated argument order, 40% nested (merge of a merged file); k over all values with extra weight on 29/31/33/35. Oracle: nk --full-info of the result == model column concatenation with '-' padding == nk of one joint ska build in the same sample order. Non-trivial: some k-mer absent from the whole first file and some absent from all later files; distinct by (k, strand, partition, nesting, sequences).";
 
 fn stages(tier: Tier) -> Vec<Box<dyn Stage>> {
@@ -210,6 +319,7 @@ fn stages(tier: Tier) -> Vec<Box<dyn Stage>> {
             let (_a, s) = gen::materialise_set(&c.set);
             json!({"k": c.set.k, "two_strand": c.set.rc, "files": plan(c, s.len()), "nested": c.nested, "samples": s.iter().map(|(n, r)| json!({"name": n, "records": r.iter().map(|x| lossy(x)).collect::<Vec<_>>()})).collect::<Vec<_>>()})
         }),
+        gen_stage_show("older_files", "generated: one of the five .skf files that the repository ships as test inputs (written by ska 0.2.0 and 0.3.11; k = 7, 9, 17, 41; copies under /verif/fixtures/old_skf), optionally rewritten by ska delete first, merged in either order with a file of 1-3 newly built samples whose first sample also holds some of the old file's split k-mers with a generated middle base. Oracle: nk --full-info of the result == (table of the old file as nk lists it) merged by the model with the model table of the new samples. Non-trivial: a split k-mer in both files.", tier.pick(300, 3000), 40, old_strategy, check_old, |c| json!({"old_file": OLD_FILES[c.file as usize % 5].0, "k": OLD_FILES[c.file as usize % 5].1, "new_samples": c.samples.len(), "old_first": c.old_first, "delete_first": c.delete.is_some()})),
         gen_stage_show("refuse", "generated: two files built with a different k (same or other integer width) or other strand mode, in either argument order; ska merge must exit non-zero and write no output. Every case non-trivial; distinct by (k, strand, k2, strand2, order).", tier.pick(320, 4000), 50, refuse_strategy, check_refuse, |c| json!({"k": c.set.k, "two_strand": c.set.rc, "kind": c.kind % 3, "bad_first": c.bad_first})),
     ]
 }
